@@ -1,5 +1,7 @@
 import PRV.Model.Delivery
+import PRV.Model.Tracking
 import PRV.Props.C11
+import PRV.Gen.C07
 /-
 C09 — Delivery to a contract tracks the contracted rate.
 Theorems about the cycle accounting of `Model/Delivery.lean`.  Partial: the accounting is proved
@@ -298,5 +300,48 @@ gets nothing for three cycles and then four times its rate — neither "does not
 than one cycle's worth" nor "never runs ahead by more than one cycle's worth" holds -/
 theorem small_miners_starve_then_flood :
     runCycles smallMiners 5 { H := 300, target := 300 } = [0, 0, 0, 1200, 1200] := by decide
+
+/-! ### "a miner that has done the work asked of it is taken off that contract": the watcher's books -/
+
+section tracking
+open PRV.Model.Tracking
+
+theorem tracked_step (s : St) (e : Ev) (h : Tracked s) (hp : s.pending = .nothing) (hc : codeOrder e = true) :
+    Tracked (step s e) ∧ (step s e).pending = .nothing := by
+  obtain ⟨holds, inFull, inPart, pending⟩ := s
+  simp only at hp; subst hp
+  cases e <;> cases holds <;> cases inFull <;> cases inPart <;> simp_all [Tracked, step, told, codeOrder]
+
+/-- **in the order the code has (owner told, then slot freed) the books always agree with the queue**, for every history
+of allocation passes and task ends: a miner the watcher lists as full is held whole, one it does not list holds nothing —
+so every miner working for the contract can be shed when delivery is ahead and is released when the contract stops -/
+theorem books_track_the_queue (evs : List Ev) (hc : ∀ e ∈ evs, codeOrder e = true) : Tracked (run {} evs) := by
+  suffices ∀ s, Tracked s → s.pending = .nothing → Tracked (run s evs) from this {} (by simp [Tracked]) rfl
+  induction evs with
+  | nil => intro s h _; exact h
+  | cons e es ih =>
+    intro s h hp
+    have := tracked_step s e h hp (hc e List.mem_cons_self)
+    exact ih (fun x hx => hc x (List.mem_cons_of_mem _ hx)) _ this.1 this.2
+
+/-- … and the code does have that order: every `select` case of `taskLoop` that frees the slot tells the owner first
+(regenerated from the source on every run) -/
+theorem code_has_that_order :
+    ((PRV.Gen.C07.taskLoopBranches.filter (·.contains "UnlockAndRemove")).all
+        fun b => decide (b.idxOf "OnEnd" < b.idxOf "UnlockAndRemove")) = true := by decide
+
+/-- **with the two statements swapped a whole miner is lost**: the partial job's slot is freed, an allocation pass takes
+the miner whole, and the late end notification of the partial job strikes it from the list of full miners — it holds a
+whole-contract task the watcher does not know of -/
+theorem swapped_order_loses_a_miner :
+    (run {} [.allocPartial, .freeSlot, .allocFull, .notifyEnd]).holds = .wholeMiner ∧
+    (run {} [.allocPartial, .freeSlot, .allocFull, .notifyEnd]).inFull = false ∧
+    ¬ Tracked (run {} [.allocPartial, .freeSlot, .allocFull, .notifyEnd]) := by
+  refine ⟨by decide, by decide, ?_⟩
+  intro h
+  have := h.1.2 (by decide)
+  revert this; decide
+
+end tracking
 
 end PRV.Props.C09
